@@ -9,4 +9,38 @@ SPEC = {
          'src': 'harness/execute/tokendata/c19_test.go', 'test': 'TestVerif_C19', 'race': True,
          'sinks': {'C19_bg': 'bg_judge'}, 'n': {'quick': 150, 'thorough': 4000}},
     ],
+    'rule': 'schedules of 4-12 harness actions (Observe of 1-5 or all 8 pool messages, incl. a second message carrying an '
+            'already used message id; return of a running fetch as ready / supported-token-not-ready / error / missing entry / '
+            'wrong slot count; sleep past the 25 ms expiry; Close with fetches running and messages waiting; Observe after Close) '
+            'on a fresh NewBackgroundObserver with 1-3 workers (class saturate: 1 worker, batches of 8; class never: fetches left to '
+            'the 150 ms observe timeout at Close; 30% with a 2 ms cleanup loop). Every underlying fetch blocks on a harness channel; '
+            'worker pick-ups are recorded as they reach the gate. Observables: Observe result or Blocked (300 ms watchdog), queue '
+            'length / running fetches after quiescence, cache size, Close returned within 2 s, goroutine count back to the count '
+            'before the observer was built. Samples whose Observe straddled an expiry instant are discarded and redrawn. '
+            'non-trivial = >= 6 events; distinct by full input+output',
+    'trusted': ['the underlying TokenDataObserver is an oracle (gate-controlled fake); it is assumed to return when its context ends',
+                'IsTokenSupported is an oracle (flag carried in the token)',
+                'wall clock: expiry decisions are sampled only >= 1.5 ms away from the expiry instant',
+                'Go channels / select / sync.WaitGroup semantics as written in the model (one signal per rendezvous, random choice '
+                'between ready cases); Go race detector'],
+    'assumptions': ['message ids identify messages (two messages with one id share a cache entry; its slot count is then the fetched one)',
+                    'time advances between enqueue and dequeue (availableAt strictly in the past when a worker dequeues)',
+                    'Close is called once (a second Close panics: close of closed channel)',
+                    'for "eventually fetched": fair scheduling and fetches that return (observe timeout honoured)'],
+    'level_text': 'PARTIAL. Proof: 13 Coq theorems over the transition-system model of the REPAIRED observer, for every schedule '
+                  '(invariant by induction over event lists): Observe completes as a single step in every reachable state with one '
+                  'entry per message and one slot per token; returned data is the placeholder or cached data whose supported tokens '
+                  'are all ready and unexpired, stored by a fetch that returned it; id set = waiting messages, no duplicates, one '
+                  'pending signal per waiting message (no lost wake-up), a waiting message is not queued again; taking the oldest '
+                  'message is enabled whenever a worker is idle, otherwise a running fetch frees one; after Close nothing restarts and '
+                  'every worker and signal sender can exit leaving nothing behind. Pre-repair code refuted: Observe blocks with 1 worker '
+                  'and 2 uncached messages (F22a), expired data is served (F22b). '
+                  'Not proved (tested every run, with the race detector): real-time behaviour and goroutine scheduling - Observe latency '
+                  'under a 300 ms watchdog with all workers blocked, expiry against the wall clock, Close with fetches in flight, '
+                  'goroutine count after Close.',
+    'level_note': 'Trusted: Coq kernel, hand-written model incl. its channel semantics, differential harness, race detector. '
+                  'Liveness ("eventually fetched") is a one-step progress statement under assumed fairness. A message being fetched '
+                  '(dequeued, not yet cached) is queued and fetched again by the next Observe - modelled as is. No axioms.',
+    'modelled': 'backgroundObserver.Observe / worker / Close, msgQueue.enqueue / dequeue / containsMsg, inMemTokenDataCache get / set / '
+                'expiration loop; the clock, the scheduler and the underlying observer are inputs',
 }
